@@ -134,6 +134,9 @@ def install(E):
                 ok = (fi != fi) and (fr_ != fr_)
             elif math.isinf(fi) or math.isinf(fr_):
                 ok = fi == fr_
+            elif E.given is not None:
+                # encoder validation runs in double precision: same formula, same rounding as rt/vf_native.c
+                ok = abs(fi - fr_) <= float(atol) + float(rtol) * (abs(fi) + abs(fr_))
             else:
                 ok = abs(Fraction(impl) - Fraction(ref)) <= Fraction(atol) + Fraction(rtol) * (abs(Fraction(impl)) + abs(Fraction(ref)))
             record(E, lab, "concrete_ok" if ok else "concrete_fail")
